@@ -22,8 +22,8 @@ ASSUMPTIONS = [
     'lifecycle hooks do not raise (C03 covers those)',
 ]
 BUDGET = {
-    'quick': {'enum': ['k1', 'k2', 'self2', 'listener'], 'hyp': 3000, 'shards': 8},
-    'thorough': {'enum': ['k1', 'k2', 'k3', 'self3', 'listener', 'listener2'], 'hyp': 160000, 'shards': 16},
+    'quick': {'enum': ['k1', 'k2', 'self2', 'listener', 'wc1', 'wc2'], 'hyp': 6000, 'shards': 8},
+    'thorough': {'enum': ['k1', 'k2', 'k3', 'self3', 'listener', 'listener2', 'wc1', 'wc2'], 'hyp': 200000, 'shards': 16},
 }
 
 ALPHABET = [['pause', 'p'], ['play'], ['kill', 'kt'], ['resume', 1], ['cancel']]
@@ -40,6 +40,15 @@ def enumerate_cases(tier, scope):
         for name in ('async2', 'wait1', 'chain', 'waitwait', 'failing', 'gated'):
             for sched in gen.schedules(ALPHABET, k, max_gap):
                 yield {'program': cat[name], 'schedule': sched, 'tag': f'{scope}:{name}'}
+    elif scope in ('wc1', 'wc2'):
+        k = int(scope[2])
+        for name in gen.WC_CATALOGUE:
+            for sched in gen.schedules([a for a in ALPHABET if a[0] != 'resume'] + gen.WC_EVENTS, k, 3):
+                yield dict(gen.base(name), schedule=sched, tag=f'{scope}:{name}')
+            for on in ('on_process_running', 'on_process_waiting', 'on_process_paused'):
+                for do in (['kill', 'lk'], ['pause', 'lp']):
+                    for sched in gen.schedules([['pause', 'p'], ['play'], ['kill', 'kt']] + gen.WC_EVENTS, 1, 3):
+                        yield dict(gen.base(name), schedule=sched, listener=[{'on': on, 'occ': 2, 'do': do}], tag=f'{scope}:{name}')
     elif scope in ('self2', 'self3'):
         kmax = int(scope[4])
         rets = [['continue', 1, [], {}], ['wait', 1, None, None], ['value', 1], ['raise', 'x']]
@@ -123,7 +132,7 @@ def execute(case):
         texts = set()
         for r in live_kills:
             texts.add(CANCEL_TEXT if r['what'] == 'cancel' else (r['arg'] or ''))
-        for step in case['program']['steps']:
+        for step in (case.get('program') or {'steps': []})['steps']:
             _collect_kill_texts(step['ret'], texts)
 
         if live_kills:
